@@ -64,15 +64,18 @@ def cells(tier):
     # the same from a state reached through a roReplace (new roCreate element, deep-copied children)
     plain = lambda op, story_k, tk, sk, nk: story_k in (None, 'existing') and tk in (None, 'existing', 'unknown') and \
         (sk is None or sk in (['existing'], ['existing', 'existing'], ['existing', 'unknown'])) and (nk is None or nk == ['fresh'])
-    out += make_cells(PID, 'frame', tier, N=3, thin=plain, extra={'prehist': True}, suffix='after-roReplace')
+    # quick tier: the history / layout variations use one resolvable representative per message shape
+    hist = plain if tier == 'thorough' else (lambda op, story_k, tk, sk, nk: plain(op, story_k, tk, sk, nk) and tk in (None, 'existing') and
+                                             (sk is None or 'unknown' not in sk))
+    out += make_cells(PID, 'frame', tier, N=3, thin=hist, extra={'prehist': True}, suffix='after-roReplace')
     # ... and after a series of refused messages (what a non-strict collection merge leaves behind)
-    out += make_cells(PID, 'frame', tier, N=3, thin=plain, extra={'prefail': True}, suffix='after-refused-messages')
+    out += make_cells(PID, 'frame', tier, N=3, thin=hist, extra={'prefail': True}, suffix='after-refused-messages')
     # ... and when every story was re-sent by a roStorySend before
-    out += make_cells(PID, 'frame', tier, N=3, thin=plain, extra={'presend': True}, suffix='after-roStorySend-of-every-story')
+    out += make_cells(PID, 'frame', tier, N=3, thin=hist, extra={'presend': True}, suffix='after-roStorySend-of-every-story')
     out += make_cells(PID, 'frame', tier, N=3, ops=['roStorySend'], extra={'empty_body': True}, suffix='empty-storyBody')
     # mixed content: character data of the parent after stories, items and paragraphs
-    out += make_cells(PID, 'frame', tier, N=3, thin=plain, extra={'tails': True}, suffix='mixed-content')
-    out += make_cells(PID, 'frame', tier, N=3, thin=plain, extra={'tails': True, 'tail': False, 'trail': 0}, suffix='mixed-content-named-element-last')
+    out += make_cells(PID, 'frame', tier, N=3, thin=hist, extra={'tails': True}, suffix='mixed-content')
+    out += make_cells(PID, 'frame', tier, N=3, thin=hist, extra={'tails': True, 'tail': False, 'trail': 0}, suffix='mixed-content-named-element-last')
     # the smallest shapes: one story / item, and every story / item of the container named by the message
     def small(n):
         def f(op, story_k, tk, sk, nk):
